@@ -12,7 +12,8 @@ package gorums
 // the call type of every call (all 9), send-buffer size; all interleavings of the issuer, the
 // sender, receiver, watcher and future/correctable handler goroutines. kindsA selects the
 // programs: 0 all types, 1 representative later calls, 2 bursts of no-send-waiting calls, 3 a
-// call with a per-node argument function followed by plain calls.
+// call with a per-node argument function followed by plain calls, 4 quorum-type calls whose
+// quorum the OTHER node completes while this node's request is still queued.
 
 func VerifC03Client(ncalls, sendBuffer, kindsA int) {
 	var opts []ManagerOption
@@ -44,6 +45,11 @@ func VerifC03Client(ncalls, sendBuffer, kindsA int) {
 			thinOrder = append(thinOrder, r.msg.Message.(*vMsg))
 			if r.waitForSend() {
 				thin.channel.routeResponse(r.msg.Metadata.MessageID, response{})
+			} else if kindsA == 4 && r.opts.callType == nil {
+				// mode 4: the thin node ANSWERS two-way requests at once, so that a call may
+				// reach its quorum while the full-stack node's request is still in its send
+				// queue (send buffer): that request must be written all the same
+				thin.channel.routeResponse(r.msg.Metadata.MessageID, response{nid: thin.id, msg: &vMsg{tok: 900 + k}})
 			}
 		}
 	}()
@@ -61,6 +67,9 @@ func VerifC03Client(ncalls, sendBuffer, kindsA int) {
 				if k == ncalls-1 && kind != ckRPC && kind != ckQC && kind != ckUnicast {
 					vAssume(false)
 				}
+			}
+			if kindsA == 4 && kind != ckQC && kind != ckAsync && kind != ckCorrectable && kind != ckRPC {
+				vAssume(false) // mode 4: calls that end on a quorum (and RPCs between them)
 			}
 			calls[k] = fsNewCall(kind, k+1, 1)
 			if kindsA == 3 {
